@@ -161,6 +161,12 @@ class Instance:
             new_instance.__dict__["metadata"] = self.metadata
         return new_instance
 
+    def derive_item(self, **changes: Any) -> "Instance":
+        # items of a collection are serialized without the field options
+        new_instance = self.derive(**changes)
+        new_instance.__dict__["metadata"] = {}
+        return new_instance
+
     def __post_init__(self) -> None:
         self._original_type = self.type
         self.update_type(self.type)
@@ -790,7 +796,7 @@ def on_collection(instance: Instance, ctx: Context) -> Optional[JSONSchema]:
             instance,
             JSONArraySchema(
                 items=(
-                    _get_schema_or_none(instance.derive(type=args[0]), ctx)
+                    _get_schema_or_none(instance.derive_item(type=args[0]), ctx)
                     if args
                     else None
                 )
@@ -810,7 +816,7 @@ def on_collection(instance: Instance, ctx: Context) -> Optional[JSONSchema]:
             instance,
             JSONArraySchema(
                 items=(
-                    _get_schema_or_none(instance.derive(type=args[0]), ctx)
+                    _get_schema_or_none(instance.derive_item(type=args[0]), ctx)
                     if args
                     else None
                 ),
@@ -824,7 +830,7 @@ def on_collection(instance: Instance, ctx: Context) -> Optional[JSONSchema]:
             instance,
             JSONArraySchema(
                 items=get_schema(
-                    instance=instance.derive(
+                    instance=instance.derive_item(
                         type=(
                             dict[args[0], args[1]]  # type: ignore
                             if args
@@ -839,11 +845,11 @@ def on_collection(instance: Instance, ctx: Context) -> Optional[JSONSchema]:
         instance.origin_type, Counter
     ):
         schema = JSONObjectSchema(
-            additionalProperties=get_schema(instance.derive(type=int), ctx),
+            additionalProperties=get_schema(instance.derive_item(type=int), ctx),
         )
         if args:
             schema.propertyNames = _get_schema_or_none(
-                instance.derive(type=args[0]), ctx
+                instance.derive_item(type=args[0]), ctx
             )
         return apply_object_constraints(instance, schema)
     elif is_typed_dict(instance.origin_type):
@@ -853,12 +859,12 @@ def on_collection(instance: Instance, ctx: Context) -> Optional[JSONSchema]:
     ):
         schema = JSONObjectSchema(
             additionalProperties=(
-                _get_schema_or_none(instance.derive(type=args[1]), ctx)
+                _get_schema_or_none(instance.derive_item(type=args[1]), ctx)
                 if args
                 else None
             ),
             propertyNames=(
-                _get_schema_or_none(instance.derive(type=args[0]), ctx)
+                _get_schema_or_none(instance.derive_item(type=args[0]), ctx)
                 if args
                 else None
             ),
@@ -871,7 +877,7 @@ def on_collection(instance: Instance, ctx: Context) -> Optional[JSONSchema]:
             instance,
             JSONArraySchema(
                 items=(
-                    _get_schema_or_none(instance.derive(type=args[0]), ctx)
+                    _get_schema_or_none(instance.derive_item(type=args[0]), ctx)
                     if args
                     else None
                 )
